@@ -627,8 +627,12 @@ def correspond(ctx):
         if k == "bits" and line.startswith("tonumber "):
             # model voice of str2num (harness/C14/str2num_model.py: the algorithm of the code in x87 arithmetic), normal range only
             txt = bytes.fromhex(line.split()[1][1:]).decode()
-            if 0x0020000000000000 <= (m[1] & 0x7fffffffffffffff) <= 0x7fd0000000000000:
+            if (m[1] & 0x7fffffffffffffff) < 0x7ff0000000000000 and re.match(r"^\s*[-+]?[0-9.]+([eE][-+]?[0-9]+)?\s*$", txt):
                 pv = str2num_model.str2num_x87(txt)
+                if pv is None:
+                    pv = float("-inf") if txt.strip().startswith("-") else float("inf")
+                elif pv == 0 and txt.strip().startswith("-"):
+                    pv = -0.0
                 pred = "f%016x" % f64_bits(float(pv))
                 dist["str2num-model-voice"] = dist.get("str2num-model-voice", 0) + 1
                 if pred != got:
